@@ -124,6 +124,11 @@ var roundtrip = &core.Check{Name: "c01/roundtrip", Quick: 1200, Thorough: 60000,
 	c.Note("nodes", len(nodes))
 	c.Note("shape", o.Shape)
 	c.Note("root_hash", hex.EncodeToString(root.ReprHash()))
+	if c.Intn("refusedFirst", 5) == 0 {
+		// a refused operation (over-deep tree, broken checksum) just before must not change this result
+		gen.RefuseFirst(c.Intn("refusedFirst.extra", 4))
+		c.Class("after a refused operation")
+	}
 	shared, err := gen.ToTongo(root, true, 100000)
 	if err != nil {
 		return err
